@@ -391,13 +391,38 @@ impl<R: HostName> ConnectInfo<R> {
     #[verifier::external_body]
     pub fn hostname(&self) -> (r: &Str) ensures *r == self.request.spec_hostname() { unimplemented!() }
 
-/// info.rs `set_addr(mut self, addr: impl Into<Option<SocketAddr>>)` (a two-line builder method with a generic
-    /// `Into` argument: a TRUSTED helper, not extracted)
-    #[verifier::external_body]
-    pub fn set_addr(self, addr: Option<SocketAddr>) -> (r: Self)
-        ensures r.addr == (match addr { Some(a) => ConnectAddrs::One(a), None => ConnectAddrs::None }),
-                r.request == self.request && r.port == self.port && r.local_addr == self.local_addr,
-    { unimplemented!() }
+}
+/// the `impl Into<Option<SocketAddr>>` / `impl Into<IpAddr>` arguments of the builder methods: stand-in traits with a
+/// spec for the conversion (identity for the types themselves)
+pub trait IntoOptAddr: Sized { spec fn spec_into(self) -> Option<SocketAddr>; fn into(self) -> (r: Option<SocketAddr>) ensures r == self.spec_into(); }
+impl IntoOptAddr for Option<SocketAddr> { open spec fn spec_into(self) -> Option<SocketAddr> { self } fn into(self) -> (r: Option<SocketAddr>) { self } }
+pub trait IntoIp: Sized { spec fn spec_into(self) -> IpAddr; fn into(self) -> (r: IpAddr) ensures r == self.spec_into(); }
+impl IntoIp for IpAddr { open spec fn spec_into(self) -> IpAddr { self } fn into(self) -> (r: IpAddr) { self } }
+impl<R: HostName> ConnectInfo<R> {
+//@extract file=actix-tls/src/connect/info.rs item="impl<R: Host> ConnectInfo<R> / fn set_addr" ret=r props=C19 name=info::set_addr mut_self sig_replace="pub fn set_addr(mut self, addr: impl Into<Option<SocketAddr>>)=>pub fn set_addr<A: IntoOptAddr>(mut self, addr: A)"
+//@spec
+    ensures r.addr == (match addr.spec_into() { Some(a) => ConnectAddrs::One(a), None => ConnectAddrs::None }),   // [C19]
+            r.request == self.request && r.port == self.port && r.local_addr == self.local_addr,
+//@end
+//@extract file=actix-tls/src/connect/info.rs item="impl<R: Host> ConnectInfo<R> / fn set_port" ret=r props=C19 name=info::set_port mut_self
+//@spec
+    ensures r.port == port, r.request == self.request && r.addr == self.addr && r.local_addr == self.local_addr,   // [C19]
+//@end
+//@extract file=actix-tls/src/connect/info.rs item="impl<R: Host> ConnectInfo<R> / fn set_local_addr" ret=r props=C19 name=info::set_local_addr mut_self sig_replace="pub fn set_local_addr(mut self, addr: impl Into<IpAddr>)=>pub fn set_local_addr<A: IntoIp>(mut self, addr: A)"
+//@spec
+    ensures r.local_addr == Some(addr.spec_into()), r.request == self.request && r.addr == self.addr && r.port == self.port,   // [C19]
+//@end
+//@extract file=actix-tls/src/connect/info.rs item="impl<R: Host> ConnectInfo<R> / fn new" ret=r props=C19 name=info::new
+//@spec
+    ensures
+        // a fresh request carries no addresses (it will be resolved) and remembers the host's own port   [C19]
+        r.request == request, r.addr is None, r.local_addr is None,
+        r.port == (match request.spec_port() { Some(p) => p, None => 0u16 }),
+//@end
+//@extract file=actix-tls/src/connect/info.rs item="impl<R: Host> ConnectInfo<R> / fn request" ret=r props=C19 name=info::request
+//@spec
+    ensures *r == self.request,
+//@end
 }
 
 impl vstd::std_specs::convert::FromSpecImpl<Option<SocketAddr>> for ConnectAddrs {
